@@ -53,6 +53,14 @@ CHECKS.update({
          "Input (and canary-filled spare capacity) snapshots around every call, repeat-call equality, 2/8/64 goroutines on shared and private buffers compared with solo results, and the same mixes in a -race build with DATA RACE reports counted.", "Trusted base: Go race detector (reports races of observed executions only).", "4/C18"),
 })
 
+TOOLS = "Trusted base: Go toolchain (build, race detector, deadlock detector), strace/taskset as perturbation, the library's own functions as the reference for report values (C01-C05 decide those), the header-label parser in the harness. The only in-package instrumentation is /verif/overlay/rddetector/zz_verif_test.go injected with go test -overlay (tag verif); /repo is never written."
+CHECKS.update({
+ "C13": ("exploration", "runtime monitor: exactly-once row checker + label-driven column oracle over real reports",
+         "Reports produced by the built rddetector binary (s in {1,2,7,40}, nested dirs, .dat, decoys, duplicate names, -n 1..64, GOMAXPROCS 1/4/16, strace-delayed report writes, -race build) and by the three worker functions driven in-package on real channels are checked: termination, header, one row per sample file, column count, every value against the library call named by that column's label.", TOOLS, "4/C13"),
+ "C20": ("exploration", "runtime monitor: file-system post-state checker",
+         "The built rdgen is run in fresh scratch directories over s, n, -o variants, CPU counts (taskset), GOMAXPROCS, strace delays and a -race build; the post-state must be exactly the requested files of the requested size with pairwise different contents inside the requested directory and nothing elsewhere; rddetector must accept the directory as s samples of n bits for the supported sizes.", TOOLS, "4/C20"),
+})
+
 PENDING = {
 }
 
